@@ -189,7 +189,7 @@ class PureEval:
                     "bool": bool, "complex": complex, "bytes": bytes, "len": len, "abs": abs, "any": any, "all": all, "hash": hash,
                     "range": range, "enumerate": lambda xs, start=0: tuple(enumerate(xs, start)), "reversed": lambda xs: tuple(reversed(xs)),
                     "Counter": __import__("collections").Counter, "sorted": sorted, "list": list, "set": set, "dict": dict, "sum": sum,
-                    "min": min, "max": max}
+                    "min": min, "max": max, "zip": lambda *xs: tuple(zip(*xs)), "divmod": divmod, "round": round, "ord": ord, "chr": chr}
         self.lib.update(extra or {})
         self.depth = 0
 
